@@ -149,7 +149,7 @@ theorem get_cons (t : Tables) (b : Nat) (bt : Batch) (b' : Nat) :
   by_cases h : b' = b
   · subst h; simp
   · have : ¬ b = b' := fun x => h x.symm
-    simp [List.find?_cons, h, this]
+    simp [h, this]
 
 /-- **a push reads and writes only what `Obs` shows**: the model's `Tables.push`, seen through `obs`, is
 `stepObs`. -/
